@@ -205,6 +205,11 @@ func (n *NumberNode) unmarshal(props JSONNode) error {
 		if base == 0 {
 			return fmt.Errorf("integer base cannot be zero")
 		}
+		if base != octal && base != decimal {
+			// Formatting uses strconv.FormatInt, which panics for a base outside 2..36,
+			// and the parser only ever produces octal and decimal literals.
+			return fmt.Errorf("invalid integer base %d, must be %d or %d", base, octal, decimal)
+		}
 		n.Base = int(base)
 	}
 
